@@ -52,6 +52,8 @@ class State:
         self.value_of = {}  # id(program) -> components, to attribute a registration to its script entry
         self.evaluated = []  # aggregate of every fitness invocation, in order
         self.presented = 0  # individuals handed to tracker.evaluate
+        # drivers in which every individual is registered right after its own evaluation (no evaluation ahead of the tracker)
+        self.sync = cfg["driver"] in ("rs", "hc", "opo", "gp") or (cfg["driver"] == "direct" and not any(cfg["pre_evaluate"]))
 
     def script(self, i):
         h = self.cfg["history"]
@@ -84,6 +86,10 @@ class State:
             if want:
                 self.best = a
             b = tracker.get_best_individual()
+            if b is not None and self.sync and self.evaluated and self.agg(list(b.get_fitness(problem).fitness_components)) < max(self.evaluated):
+                ctx.violate(f"C12/best/single/worse-than-an-evaluated-individual/at-registration",
+                            f"at registration #{self.n_reg} the tracker's best has aggregate {self.agg(list(b.get_fitness(problem).fitness_components))} "
+                            f"although an individual with aggregate {max(self.evaluated)} has already been evaluated")
             if b is None:
                 ctx.violate("C12/best/single/none", "get_best_individual() is None after an evaluation")
             else:
